@@ -38,3 +38,13 @@ META = {
             "cleanup goroutine is proved (C11_no_wedge_partial). Trusted: Lean kernel, factgen, harness, Go runtime, tomb.v2.",
     "technique": "Lean 4 invariant proofs over an event-system model + trace acceptance / monitors against the real lifecycle services",
 }
+
+# build step of Start: processor reservations over build attempts / run ends / repairs (Props/C11Build, Facts/C11Build)
+PROP["jobs"].append({"harness": "h_tree", "comp": "rebuild", "n_quick": 1500, "n_thorough": 40000, "fail_tag": "C11",
+                     "why": "a recorded sequence of buildRunnablePipeline attempts, run ends (Worker.Close + Sink.Close / ProcessorNode.Run exits) and "
+                            "configuration repairs against the real lifecycle service (v1 pkg/lifecycle, v2 pkg/lifecycle-poc) with the real "
+                            "connector / processor services, observing after every step which processor instances are reserved (processor.Service.Update "
+                            "refuses them), is not a run of Model/Rebuild (reject@k), or violates the C11 monitor noLeakAfterFailedBuild: a failed build "
+                            "keeps reservations (KNOWN FINDING in both engines), something stays reserved after every run ended, a repaired configuration "
+                            "does not build"})
+PROP["lean_modules"] += ["ConduitModel.Props.C11Build", "ConduitModel.Facts.C11Build"]
